@@ -1,12 +1,17 @@
 package main
 
 import (
+	"context"
 	"fmt"
 	"os"
 	"strings"
 	"syscall"
+	"time"
 
 	"github.com/criyle/go-sandbox/pkg/forkexec"
+	"github.com/criyle/go-sandbox/runner"
+	"github.com/criyle/go-sandbox/runner/ptrace"
+	"github.com/criyle/go-sandbox/runner/unshare"
 	"golang.org/x/sys/unix"
 )
 
@@ -229,6 +234,46 @@ func runC04(res *Result, d *Driver, tier string, seed uint64) {
 			res.Sample("launch " + desc + " => " + strings.ReplaceAll(strings.TrimSpace(out), "\n", " | "))
 		}
 	}
+	// part C: the runners themselves with the "no filter" option set: a Runner without Seccomp must start the program
+	// (without a filter), not crash the caller
+	// (the ptrace runner needs a filter to work at all — its tracing is driven by seccomp events; without one it reports
+	// Runner Error "child process exit before execve" after the program ran: a misuse, recorded as an observation)
+	for _, which := range []string{"unshare"} {
+		status, detail := c04NoFilterRun(which)
+		res.Case("runner-no-filter "+which, true, "runner-nofilter")
+		if status != "Normal/7" {
+			res.Mismatch(Mismatch{Kind: "oracle", What: "a runner without a seccomp filter (option set: seccomp off) must run the program without filter (C04: every option set)", Input: which + ".Runner{Seccomp: nil} probe 'report sec; exit 7'", Impl: status + " " + detail, Model: "Normal/7 seccomp mode 0", Oracle: "violates"})
+		}
+	}
+}
+
+// c04NoFilterRun runs the probe under a runner constructed without a filter; a panic of the library is caught and reported
+func c04NoFilterRun(which string) (status string, detail string) {
+	defer func() {
+		if r := recover(); r != nil {
+			status, detail = "PANIC", fmt.Sprint(r)
+		}
+	}()
+	pf := openProbe()
+	defer pf.Close()
+	out := newCapture()
+	devnull, _ := os.Open(os.DevNull)
+	defer devnull.Close()
+	ctx, cancel := context.WithTimeout(context.Background(), 20*time.Second)
+	defer cancel()
+	var r runner.Result
+	switch which {
+	case "unshare":
+		r = (&unshare.Runner{Args: []string{"probe", "report sec; exit 7"}, ExecFile: pf.Fd(), Files: []uintptr{devnull.Fd(), out.w.Fd(), out.w.Fd()}, Limit: bigLimit}).Run(ctx)
+	default:
+		r = (&ptrace.Runner{Args: []string{"probe", "report sec; exit 7"}, ExecFile: pf.Fd(), Files: []uintptr{devnull.Fd(), out.w.Fd(), out.w.Fd()}, Limit: bigLimit, Handler: allowHandler{}}).Run(ctx)
+	}
+	o := out.done()
+	st := "Normal"
+	if r.Status != runner.StatusNonzeroExitStatus {
+		st = r.Status.String()
+	}
+	return fmt.Sprintf("%s/%d", st, r.ExitStatus), strings.ReplaceAll(strings.TrimSpace(o), "\n", " | ") + " " + r.Error
 }
 
 func c04Bit(n uint64, i uint) bool { return n>>i&1 == 1 }
